@@ -183,7 +183,7 @@ Spec == Init /\ [][Next]_vars /\ WF_vars(Next)
 -----------------------------------------------------------------------------
 (* Invariants.  The mechanism must imply the property layer.               *)
 In == [tf |-> tf, dt0 |-> dt0, pfreq |-> pfreq, outs |-> outs,
-       maxsteps |-> maxsteps, t0 |-> 0, c0 |-> 0]
+       maxsteps |-> maxsteps, t0 |-> 0, c0 |-> 0, norec |-> FALSE]
 
 Done == pc = "done"
 
